@@ -645,7 +645,7 @@ fn execute(case: &Case, ctx: &mut Ctx) -> Verdict {
     if style > 0 {
         ctx.label(["", "ids:same-low-32-bits", "ids:same-low-16-bits", "ids:near-u64-max", "ids:top-bit-set", "ids:same-high-32-bits"][style as usize]);
     }
-    let mut g = ProofGraph::new();
+    let mut g = crate::core::new_or_default(ProofGraph::new);
     for w in 0..case.warm {
         let h = FactHandle::new(100_000 + w as u64);
         let (premises, premise_keys) = if w % 3 == 1 { (vec![FactHandle::new(100_000 + w as u64 - 1)], vec![format!("Warm{}.derived", w - 1)]) } else { (vec![], vec![]) };
